@@ -216,8 +216,12 @@ class Executor:
                 vals, has = {}, {}
                 for k, fty, opt in rty.fields:
                     if k in c.items:
+                        pk = c.present.get(k, True)
+                        if opt and pk is not True and z3.is_false(z3.simplify(pk)):
+                            has[k] = False          # key certainly absent: its value is irrelevant
+                            continue
                         vals[k] = to_term(self.freeze(st, c.items[k], fty), fty)
-                        has[k] = c.present.get(k, True)
+                        has[k] = pk
                     else:
                         if not opt:
                             raise EngineUnsupported(f"dict lacks required key {k} of {rty.name}")
@@ -886,12 +890,30 @@ class Executor:
         return self._lift(self.eval(st, s.exc), lambda s2, v: [(s2, Outcome(Outcome.RAISE, v))])
 
     def ex_If(self, st, s):
+        narrow = self.none_test(st, s.test)
+
         def k(s2, c):
             out = []
             for s3, b in self.branch(s2, self.truth(s2, c)):
+                if narrow is not None:
+                    name, none_when_true = narrow
+                    v = s3.env.get(name)
+                    if isinstance(v, VOpt):
+                        s3.env[name] = VNone if (b == none_when_true) else from_term(v.ty.val(v.t), v.ty.elem)
                 out.extend(self.exec_block(s3, s.body if b else s.orelse))
             return out
         return self._lift(self.eval(st, s.test), k)
+
+    def none_test(self, st, test):
+        """`x is None` / `x is not None` on a local holding an optional value: (name, True if the test being true means None)"""
+        if isinstance(test, ast.Compare) and len(test.ops) == 1 and isinstance(test.left, ast.Name) \
+                and isinstance(test.comparators[0], ast.Constant) and test.comparators[0].value is None \
+                and isinstance(st.env.get(test.left.id), VOpt):
+            if isinstance(test.ops[0], ast.Is):
+                return (test.left.id, True)
+            if isinstance(test.ops[0], ast.IsNot):
+                return (test.left.id, False)
+        return None
 
     def ex_AnnAssign(self, st, s):
         if s.value is None:
